@@ -14,7 +14,11 @@ package multiraft
 // Everything else (BootstrapSlot, OpenSlot, Step, Propose, TransferLeadership, Status) is
 // the exported API.
 
-import "context"
+import (
+	"context"
+
+	"github.com/WuKongIM/WuKongIM/pkg/goroutine"
+)
 
 // VerifC12NewRuntime mirrors New() minus start(): no worker, ticker or apply goroutines;
 // apply == nil makes every slot apply committed entries inline (processReadySynchronously).
@@ -87,4 +91,45 @@ func (r *Runtime) VerifC12SlotObject(id SlotID) any {
 		return nil
 	}
 	return g
+}
+
+// VerifC12NewRuntimeNoTicker mirrors New() including the scheduler workers and the
+// asynchronous apply pipeline, but does not start the ticker goroutine (run "async": a
+// permanently pending virtual timer would add a "timer fires first" alternative to every
+// scheduling decision; ticks are issued by the harness through VerifC12Kick instead).
+func VerifC12NewRuntimeNoTicker(opts Options) (*Runtime, error) {
+	opts.Raft = NormalizeRaftOptions(opts.Raft)
+	if opts.NodeID == 0 || opts.Workers <= 0 || opts.Transport == nil {
+		return nil, ErrInvalidOptions
+	}
+	if err := ValidateRaftOptions(opts.Raft); err != nil {
+		return nil, err
+	}
+	rt := &Runtime{
+		opts:      opts,
+		slots:     make(map[SlotID]*slot),
+		scheduler: newScheduler(opts.Observer),
+		apply:     newApplyPipeline(opts.Workers, opts.Goroutines, opts.Observer),
+		stopCh:    make(chan struct{}),
+	}
+	for i := 0; i < opts.Workers; i++ {
+		rt.wg.Add(1)
+		goroutine.SafeGo(opts.Goroutines, goroutine.TaskSlotRaftWorker, func() {
+			defer rt.wg.Done()
+			rt.runWorker()
+		})
+	}
+	return rt, nil
+}
+
+// VerifC12Kick is one ticker beat for one slot (Runtime.enqueueTickForOpenSlots).
+func (r *Runtime) VerifC12Kick(id SlotID) {
+	r.mu.RLock()
+	g := r.slots[id]
+	r.mu.RUnlock()
+	if g == nil {
+		return
+	}
+	g.markTickPending()
+	r.scheduler.enqueue(id)
 }
